@@ -399,6 +399,32 @@ func runNetRace(o Opts) error {
 			}()
 		}
 		wg.Wait()
+		// the same ARGUMENT values (cards, profiles, tasks, passcode tables) handed to several calls at once: operations only
+		// read what they are given, so sharing them is race-free
+		shared := []OpCase{}
+		rs := NewRand(o.Seed, "NETRACE-shared")
+		for w := 0; w < nOps; w++ {
+			k := 4
+			if w == 12 || w == 16 || w == 25 { // PutCard, SetTimeProfile, SetDoorPasscodes: many argument shapes
+				k = 30
+			}
+			for j := 0; j < k; j++ {
+				shared = append(shared, genOp(rs, w, []uint32{405419896, 303986753, 201020304}[rs.Intn(3)], false))
+			}
+		}
+		for g := 0; g < 6; g++ {
+			wg.Add(1)
+			go func() {
+				defer wg.Done()
+				for _, oc := range shared {
+					func() {
+						defer func() { recover() }()
+						oc.Run(u)
+					}()
+				}
+			}()
+		}
+		wg.Wait()
 	}
 	return nil
 }
